@@ -802,6 +802,43 @@ def _scope_rule(repo, rep):
               "if not super().__contains__(key): yield key" in t, "R05.6",
               it_.qualname, "iteration yields local names, then root names "
               "that are not shadowed", construct="iter", where=L.where(it_))
+    # the root layer is walked when there IS one
+    loops = [n for n in ast.walk(it_.node) if isinstance(n, ast.For)
+             and src(n.iter) == "root"]
+    okr = bool(loops)
+    for lp in loops:
+        gs = [(src(t_), v_) for t_, v_ in L.guards_of(lp, it_.node)
+              if isinstance(t_, ast.expr)]
+        if not L.cond_holds(gs, "root is not marker", True):
+            okr = False
+    rep.check(okr, "R05.6", it_.qualname, "the shared root is iterated "
+              "exactly when the scope has one", construct="iter-root-guard",
+              where=L.where(it_))
+    # reading a scope changes nothing: only set_global / copy / the
+    # constructor write, every other method calls no mutating method of a
+    # dict and stores nothing (a lookup that pops would make a global
+    # readable once)
+    WRITERS = {"set_global", "copy", "__init__", "__setitem__", "set_local",
+               "setLocal", "setGlobal", "update"}
+    MUT = {"pop", "popitem", "clear", "update", "setdefault", "__setitem__",
+           "__delitem__"}
+    dirty = []
+    for mn, mf in sorted(ci.methods.items()):
+        if mn in WRITERS:
+            continue
+        for n in ast.walk(mf.node):
+            if isinstance(n, ast.Call) and isinstance(
+                    n.func, ast.Attribute) and n.func.attr in MUT:
+                dirty.append("%s: %s" % (mn, src(n)[:50]))
+            elif isinstance(n, (ast.Assign, ast.AugAssign, ast.Delete)):
+                tg = n.targets if not isinstance(n, ast.AugAssign) \
+                    else [n.target]
+                for t_ in tg:
+                    if isinstance(t_, ast.Subscript):
+                        dirty.append("%s: %s" % (mn, src(t_)[:50]))
+    rep.check(not dirty, "R05.6", site, "the reading methods of Scope "
+              "(get, [], in, iteration, get_name ...) leave both layers "
+              "unmodified", construct="readers-pure", detail="; ".join(dirty))
     gn = ci.methods.get("get_name")
     text = L.text(gn.node, body_only=True)
     rep.check("raise NameError(key)" in text and
